@@ -3,7 +3,7 @@
 tools/run_seeded.sh (rule names are whatever fires today)."""
 import json, glob, os, re, subprocess, sys
 root = os.path.dirname(os.path.dirname(os.path.abspath(__file__)))
-out = subprocess.run([os.path.join(root, "tools", "run_seeded.sh")], capture_output=True, text=True).stdout
+out = subprocess.run(f"ls {root}/seeded | xargs -P 8 -I{{}} bash {root}/tools/run_seeded.sh {{}}", shell=True, capture_output=True, text=True).stdout
 live = {}
 for line in out.splitlines():
     m = re.match(r"(\S+): (DETECTED|MISSED|FAILS-CLOSED) (?:by|in) (C\d+):? ?(.*)", line)
@@ -22,7 +22,7 @@ for meta in sorted(glob.glob(os.path.join(root, "seeded", "*", "meta.json"))):
     hist = m.get("detection", "")
     first = ("not decided" if m.get("expected") == "analysis-error" else
              "missed at first" if re.search(r"initially (MISSED|exit 2)|[Mm]issed at first|missed by C\d\d at first|first ended in an analysis error|"
-                                            r"first fired only because|first fired as|missed when found", hist) else "caught as built")
+                                            r"first fired only because|first fired as|missed when found|failed closed when found", hist) else "caught as built")
     if first == "missed at first":
         miss0 += 1
     if first == "not decided":
